@@ -198,6 +198,57 @@ add('C16',
     "never claims that a mesh should have been found (guarded at exit 2 "
     "if < 60 % of designed-feasible inputs return one).")
 
+add('C12',
+    "Hypothesis rule-based state machine over the public Simulation "
+    "operations (<= 8 steps); oracle: results of a FRESH simulation of the "
+    "current model (reference model), type/NaN-pattern checks, "
+    "fork-and-mutate independence",
+    "Exploration of call histories: compute, misfit, gradient, jvec, jtvec, "
+    "get_efield/hfield, clean(3), copy(4), to_dict/from_dict(4), "
+    "to_file/from_file(3 formats x 4), model replacement + clean, on an "
+    "isotropic and a VTI problem, in memory and file based, tol != "
+    "tol_gradient; every reported synthetic/misfit/gradient/jvec/jtvec is "
+    "compared with the fresh-simulation reference, exceptions on "
+    "documented operations are violations, and mutating a copy/reloaded "
+    "simulation must leave the original bit-identical.",
+    "Trusted: fresh-simulation references computed once per process; "
+    "thresholds 1e-6 (data, misfit) and 1e-3 of max-norm (gradient, jvec, "
+    "jtvec; 1e2 x tol_gradient) - bit-identical on the repaired tree.")
+
+add('C13',
+    "Hypothesis rule-based state machine on Survey with a Python-side model "
+    "of noise floor / relative error / standard deviation; formula oracle "
+    "for standard deviation and misfit; permutation metamorphic relation",
+    "Exploration of histories of assignments, add_noise (all noise types, "
+    "offset/amplitude cuts incl. exact-equality limits, add_to), select, "
+    "copy, to_dict/from_dict, to_file/from_file on surveys from 1x1x1 to "
+    "3x4x3 with NaN gaps: after every step the stored parameters must be "
+    "bit-identical to the last assignment, std must follow the formula, "
+    "data sets must be untouched except where add_noise is entitled to "
+    "change them (NaN pattern and |delta| = std for white noise), earlier "
+    "surveys stay untouched; misfit == 0.5 sum |r|^2/std^2 and is "
+    "permutation invariant.",
+    "Trusted: the Python-side model in vp/checks/c13_noise.py; no oracle "
+    "depends on the realised noise (random_noise is unseeded; for replay "
+    "determinism the generator is swapped for a seeded one).")
+
+add('C14',
+    "Hypothesis over conductivities (12 decades) x six mappings x cases; "
+    "round-trip and analytic/complex-step/finite-difference derivative "
+    "oracles, coefficient differential across mappings, residual-form "
+    "cross-mapping check of real solves (refop), exhaustive enumeration of "
+    "the rejection product",
+    "Exploration + exhaustive sub-domain: inverse pairs and chain-rule "
+    "factors of all six maps; VolumeModel coefficients identical across "
+    "parametrisations (1e-12); fields solved under one mapping satisfy the "
+    "checker-assembled system of every other mapping to the solver "
+    "tolerance; the product mapping x target x route x value-kind x form "
+    "(4620 combinations) of accept/reject behaviour is enumerated in every "
+    "run.",
+    "Trusted: vp/refop.py, checker-side map formulas. Finite mapped values "
+    "whose float64 conductivity over/underflows are counted as must-reject "
+    "(interpretation recorded in ASSUMPTIONS).")
+
 NOT_BUILT = "check not built yet (see DESIGN.md section 3 for the plan)"
 
 
